@@ -3,6 +3,8 @@ package sim
 import (
 	"errors"
 	"fmt"
+
+	mwdb "massnet.org/mass-wallet/masswallet/db"
 )
 
 //go:norace
@@ -41,6 +43,9 @@ func runC18(w *World, p map[string]int) {
 	}
 	failj := param(p, "failj", 0)
 	sticky := param(p, "sticky", 0) == 1
+	// disk=1: the addressed call fails only if it is a commit, and it fails
+	// below the wallet-db layer: goleveldb's journal write returns an error
+	diskMode := param(p, "disk", 0) == 1
 	cc := &crashCtx{}
 	// warm-up history
 	pre := 2 + t.Int(param(p, "pre", 10))
@@ -91,6 +96,7 @@ func runC18(w *World, p map[string]int) {
 	np := len(w.S.Panics)
 	db.mu.Lock()
 	db.Calls, db.Counting, db.FailAt, db.Sticky = 0, true, failj, sticky
+	db.DiskCommit = diskMode
 	db.FirstSite = ""
 	db.LogCalls = failj == 0
 	db.CallLog = nil
@@ -141,7 +147,12 @@ func runC18(w *World, p map[string]int) {
 		log = db.CallLog
 	}
 	db.Counting, db.FailAt, db.Sticky, db.LogCalls = false, 0, false, false
+	diskFaults := db.DiskFaults
+	db.DiskCommit = false
 	db.mu.Unlock()
+	if diskMode {
+		w.Stats["fault.disk_write_error_in_commit"] += diskFaults
+	}
 	if failj == 0 {
 		w.Extra["calls"] = calls
 		hist := map[string]int{}
@@ -200,6 +211,44 @@ func runC18(w *World, p map[string]int) {
 		}
 	}
 	w.FatalIsCrash = false
+	// ---- the medium works again. Does the store? ----
+	storeStayedFailed := ""
+	if diskMode && diskFaults > 0 && !inst.Dead && inst.WM != nil {
+		perr := mwdb.Update(inst.DB, func(tx mwdb.DBTransaction) error {
+			b := tx.TopLevelBucket("zzprobe")
+			if b == nil {
+				var e error
+				if b, e = tx.CreateTopLevelBucket("zzprobe"); e != nil {
+					return e
+				}
+			}
+			return b.Put([]byte("k"), []byte{byte(failj)})
+		})
+		if perr != nil {
+			// goleveldb's journal writer keeps its first error: every later
+			// commit fails until the database is reopened. Recorded (known
+			// finding) at the end of the run; the process is restarted, as
+			// an operator would, and the rest of the property is checked
+			storeStayedFailed = fmt.Sprintf("%s: after the one failed storage write the medium accepts writes again, but the store refuses every later write transaction (%v) until the process is restarted [goleveldb journal writer keeps its first error; ldb does not reopen]", what, perr)
+			w.Stat("probe.store_stays_failed_until_restart")
+			w.S.Quiesce(2000)
+			w.S.mu.Lock()
+			w.S.FatalExits = nil
+			w.S.mu.Unlock()
+			if err := w.RecoverCrash(inst, nil); err != nil {
+				w.Violate("C18.restart-failed", "%s: restart after the store stayed failed: %v | wallet errors: %q", what, err, w.RecentErrors(4))
+				return
+			}
+			if errors.Is(opErr, ErrCrashed) {
+				return
+			}
+		}
+	}
+	defer func() {
+		if storeStayedFailed != "" && len(w.Violations) == 0 {
+			w.Violate("C18.store-stays-failed", "%s", storeStayedFailed)
+		}
+	}()
 	// ---- storage works again: repeat what reported failure ----
 	if opErr != nil && fired > 0 {
 		w.Stat("probe.operation_reported_failure")
